@@ -212,7 +212,7 @@ class Models:
         R(r"^core::iter::sources::repeat_n::repeat_n$", lambda ci: ("iter", "repeat_n", ci.args[0], ci.args[1]), "iter::repeat_n(x, n): n copies of x")
         R(r"^core::iter::traits::iterator::Iterator::chain$", lambda ci: ("iter", "chain", ci.args[0], m_into_iter_value(ci, ci.args[1])), "Iterator::chain: all items of the first, then all items of the second")
         R(r"^core::iter::traits::iterator::Iterator::sum$", m_sum, "Iterator::sum adds all items in the result type (overflow panics in debug builds: A4)")
-        R(r"as core::iter::traits::iterator::Iterator>::fold$|^core::iter::traits::iterator::Iterator::fold$", lambda ci: ("app", "fold", (ci.args[0], ci.args[1], ci.args[2])), "Iterator::fold(init, f)")
+        R(r"as core::iter::traits::iterator::Iterator>::fold$|^core::iter::traits::iterator::Iterator::fold$", m_fold, "Iterator::fold(init, f): executed item by item over a small table, otherwise kept as a symbolic fold")
         R(r"^core::slice::<impl \[T\]>::iter_mut$", lambda ci: ("iter", "slice_mut", ci.deref(ci.args[0])), "slice::iter_mut yields &mut to the elements in order")
         R(r"^core::iter::traits::iterator::Iterator::for_each$|as core::iter::traits::iterator::Iterator>::for_each$", m_for_each, "Iterator::for_each calls the closure on every item")
         R(r"as core::iter::traits::collect::IntoIterator>::into_iter$|^core::iter::traits::collect::IntoIterator::into_iter$", m_into_iter, "IntoIterator for iterators is identity; for &Vec / &mut Vec it is slice iteration")
@@ -241,6 +241,9 @@ class Models:
         R(r"^core::mem::replace$", m_mem_replace, "mem::replace stores the new value and returns the old one")
         R(r"^alloc::vec::from_elem$", lambda ci: ("seq", (("fill_to", ci.args[1], ci.args[0]),)), "vec![x; n]: n copies of x")
         R(r"^<alloc::vec::Vec<T, A> as core::iter::traits::collect::Extend<&'a T>>::extend$|^<alloc::vec::Vec<T, A> as core::iter::traits::collect::Extend<T>>::extend$", m_vec_extend_iter, "Vec::extend with the items of a slice iterator: extend_from_slice")
+        R(r"as core::iter::traits::iterator::Iterator>::(try_for_each|try_fold)$|^core::iter::traits::iterator::Iterator::(try_for_each|try_fold)$", m_try_iter, "Iterator::try_fold / try_for_each: the closure on each item in order, stopping at the first Err / None / Break, which is returned")
+        R(r"^core::result::Result::<T, E>::inspect$|^core::option::Option::<T>::inspect$", m_inspect, "Result/Option::inspect(f): f(&value) on Ok / Some, then the value itself unchanged")
+        R(r"^core::option::Option::<T>::filter$", m_opt_filter, "Option::filter(p): Some(x) if p(&x) else None")
         R(r"^core::hint::must_use$", lambda ci: ci.args[0], "hint::must_use is the identity")
         R(r"^log::max_level$", lambda ci: ("loglevel",), "log::max_level(): the global maximum level (analysed at both extremes)")
         R(r"^core::cmp::PartialOrd::le$", m_le, "PartialOrd::le; Level <= max_level decided by the engine's log setting")
@@ -431,16 +434,20 @@ def m_index(ci):
             lo = i[4][0]
         elif nm == "RangeTo":
             hi = i[4][0]
+        elif nm == "RangeToInclusive" and i[4][0][0] == "int":
+            hi = mk_int(i[4][0][1] + 1, "usize")
+        elif nm == "RangeInclusive" and len(i[4]) >= 2 and i[4][1][0] == "int":
+            lo, hi = i[4][0], mk_int(i[4][1][1] + 1, "usize")
         else:
             raise Unsupported("index by %s" % nm)
         lo = lo or mk_int(0, "usize")
         ci.st.emit(("index_range", base, lo, hi, ci.w))
-        if base[0] == "bytes" and lo[0] == "int" and (hi is None or hi[0] == "int"):
+        if base[0] in ("bytes", "array") and lo[0] == "int" and (hi is None or hi[0] == "int"):
             h = hi[1] if hi else len(base[1])
             if lo[1] <= h <= len(base[1]):
-                return ("ref", ("val", ("bytes", base[1][lo[1]:h]), ()), False)
+                return ("ref", ("val", (base[0], base[1][lo[1]:h]), ()), False)
             return ("panic!", "slice index out of range")
-        return ("ref", ("val", ("app", "subslice", (base, lo, hi if hi is not None else ("len", base))), ()), a[2] if a[0] == "ref" else False)
+        return ("ref", ("val", ("app", "subslice", (base, lo, hi if hi is not None else len_term(base))), ()), a[2] if a[0] == "ref" else False)
     raise Unsupported("index operand %r" % (i[0],))
 
 
@@ -822,6 +829,8 @@ def m_for_each(ci):
                 ci.st.emit(("fill", sl, v, ci.w))
                 return UNIT
         return UNIT
+    if it[0] == "iter" or (it[0] == "adt" and it[1].endswith("ops::range::Range")):
+        return ("native", "for_each", it, f, UNIT)      # the closure on every item, as a loop on the evaluator's own stack
     return None
 
 
@@ -830,6 +839,11 @@ def m_into_iter(ci):
 
 
 def m_into_iter_value(ci, x):
+    if x[0] == "adt" and x[1] == "core::option::Option":
+        # Option::into_iter: zero or one item
+        return ("iter", "array", ("array", tuple(x[4][:1]) if x[3] == "Some" else ()))
+    if (term_type(x) or "").startswith("core::option::Option<"):
+        return ("iter", "option", x)
     if x[0] == "iter":
         return x
     if x[0] == "adt" and x[1].endswith("ops::range::Range"):
@@ -886,6 +900,15 @@ def concrete_step(ci, it):
 def m_iter_next(ci):
     ev = ci.ev
     it = ci.deref(ci.args[0])
+    if it[0] == "iter" and it[1] == "option" and ci.args[0][0] == "ref":
+        # the iterator of a symbolic Option: its value once if it is Some, then nothing
+        x = it[2]
+        d = ("discr", x)
+
+        def once(ci2):
+            ci2.ev.store(ci2.st, ci2.args[0][1], ("iter", "array", ("array", ())), ci2.w)
+            return some(ci2.ev, ("unwrap", x))
+        return ("fork", [([(d, 1)], once), ([(d, 0)], none(ev))])
     cs = concrete_step(ci, it) if ci.args[0][0] == "ref" else None
     if cs is not None:
         if cs == ("end",):
@@ -1090,6 +1113,52 @@ def m_vec_extend_iter(ci):
     return None
 
 
+def m_fold(ci):
+    it = ci.args[0]
+    if concrete_step(ci, it) is not None:
+        return ("native", "fold", it, ci.args[2], ci.args[1])
+    return ("app", "fold", (ci.args[0], ci.args[1], ci.args[2]))
+
+
+def m_inspect(ci):
+    x, f = ci.args
+    good = ("Ok", "Some")
+
+    def run(ci2, payload):
+        r = apply_closure(ci2, f, [("ref", ("val", payload, ()), False)], multi=lambda v: x)
+        return r
+    if x[0] == "adt":
+        return run(ci, x[4][0]) if x[3] in good else x
+    d = ("discr", x)
+    is_opt = (term_type(x) or "").startswith("core::option::Option")
+    gv = 1 if is_opt else 0
+    return ("fork", [([(d, gv)], lambda ci2: run(ci2, ("unwrap", x))), ([(d, 1 - gv)], x)])
+
+
+def m_opt_filter(ci):
+    x, p = ci.args
+    ev = ci.ev
+
+    def test(ci2, payload):
+        def fin(b):
+            if b[0] == "int":
+                return some(ci2.ev, payload) if b[1] else none(ci2.ev)
+            return ("fork", [([(b, 1)], some(ci2.ev, payload)), ([(b, 0)], none(ci2.ev))])
+        return apply_closure(ci2, p, [("ref", ("val", payload, ()), False)], multi=fin)
+    if x[0] == "adt":
+        return test(ci, x[4][0]) if x[3] == "Some" else x
+    d = ("discr", x)
+    return ("fork", [([(d, 1)], lambda ci2: test(ci2, ("unwrap", x))), ([(d, 0)], none(ev))])
+
+
+def m_try_iter(ci):
+    which = ci.name.split("::")[-1]
+    it = ci.deref(ci.args[0]) if ci.args[0][0] == "ref" else ci.args[0]
+    if which == "try_for_each":
+        return ("native", "try_for_each", it, ci.args[1], UNIT)
+    return ("native", "try_fold", it, ci.args[2], ci.args[1])
+
+
 def m_find_map(ci):
     """Generic-item semantics, like a `for` loop with an early return: (a) no item at all -> None; (b) f(item) is Some for
     an item all of whose predecessors gave None -> that Some; (c) every item gave None -> None."""
@@ -1189,9 +1258,9 @@ def apply_closure(ci, f, args, multi=None):
                 r = ev.models.call(c2)
             except Exception:
                 return None
-            if isinstance(r, tuple) and r and r[0] in ("fork", "panic!", "inline", "suspend"):
+            if isinstance(r, tuple) and r and r[0] in ("fork", "panic!", "inline", "suspend", "native", "multi"):
                 return None
-            return r
+            return multi(r) if (multi is not None and r is not None) else r
     else:
         return None
     if fn is None:
@@ -1201,7 +1270,7 @@ def apply_closure(ci, f, args, multi=None):
         rv = ci.st.new_sym("ret:" + fn["name"].split("::")[-1], fn.get("output", {}).get("s", "?"))
         loaded = tuple(ev.load(ci.st, a[1]) if a[0] == "ref" else None for a in args)
         ci.st.emit(("call", fn["name"], tuple(args), rv, getattr(ci, "w", "?"), None, loaded))
-        return rv
+        return multi(rv) if multi is not None else rv
     sub = Evaluator(ev.prog, ev.models, ev.log_on, {}, ev.no_inline)
     sub.fnrefs = ev.fnrefs
     st2 = ci.st.fork()
